@@ -795,8 +795,11 @@ class TokenizerCore:
             tokens = len(self.tokens)
             self._scan(check_semicolon=True)
             self.tokens = self.tokens[:tokens]
-            text = self.sql[start : self._current].strip()
+            raw = self.sql[start : self._current]
+            text = raw.strip()
             if text:
+                # the token starts at the first character of its text, not at the last lexeme scanned above
+                self._start = start + len(raw) - len(raw.lstrip())
                 self._add(TokenType.STRING, text)
 
     def _scan_keywords(self) -> None:
